@@ -179,9 +179,14 @@ TOKENS = [b'\r', b'\n', b'\r\n', b' ', b'\t', b':', b';', b',', b'=', b'%', b'%f
 	b"title*=a\x00b'en'x", b"title*=uu''x", b"title*=hex''zz", b"title*=utf-16''%ff", b"title*=undefined''x", b"; x*=idna''%ff", b'Content-Type: text/plain; charset*=', b'X: =?',
 	# names of media types and codings, where a coding / a charset / a media type is expected
 	b'application/json', b'multipart/form-data', b'multipart/byteranges', b'application/x-www-form-urlencoded', b'message/http', b'text/plain', b'application/gzip', b'application/zlib', b'x-gzip', b'GZIP', b'br', b'compress',
-	# RFC 2231 / 5987 parameters with numbers that are not sizes and charset tokens that are not text
-	b'text/plain; charset*99999999999999999999=x', b'a; x*4294967296=y', b'a; x*0=a; x*18446744073709551616=b', b'a; x*-1=y', b'a; x*1000000=y; x*0=z',
+	# RFC 5987 charset tokens that are not text
 	b"text/plain; title*=\xfctf-8'en'%e2%82%ac", b"a; t*=\xff''x", b"a; t*=utf-8'\xe9n'x", b"a; t*='", b"a; t*=''", b"a; t*='''"]
+
+
+# numbers in a message that are not sizes (RFC 2231 section numbers, ...): if the work or the memory spent depends on their VALUE the interpreter
+# may not survive, so these are parsed in a child interpreter with a memory limit only (the work-bound part of C03)
+NUMERIC_BOMBS = [b'text/plain; charset*99999999999999999999=x', b'a; x*4294967296=y', b'a; x*0=a; x*18446744073709551616=b', b'a; x*-1=y', b'a; x*100000000=y; x*0=z',
+	b'a; x*0*=utf-8\'\'a; x*999999999*=b', b'x; q=1e999999999', b'x; q=' + b'9' * 400, b'bytes=0-' + b'9' * 30, b'bytes=99999999999999999999-', b'0' * 3000 + b'1', b'1e9']
 
 
 def mutate(rng, data):
